@@ -247,13 +247,19 @@ impl SegmentIndex {
     /// Returns `None` when the index is missing or unreadable, so start-up code can
     /// fall back to scanning the shard directory.
     pub fn published_labels(shard_dir: &Path) -> Option<Vec<String>> {
+        let entries = Self::published_entries(shard_dir)?;
+        Some(entries.iter().map(|entry| entry.label()).collect())
+    }
+
+    /// Synchronously reads the entries (segment id and the uids it serves) published in
+    /// `segments.idx`. Returns `None` when the index is missing or unreadable.
+    pub fn published_entries(shard_dir: &Path) -> Option<Vec<SegmentEntry>> {
         let mut file = fs::File::open(shard_dir.join("segments.idx")).ok()?;
         let header = BinaryHeader::read_from(&mut file).ok()?;
         if header.magic != FileKind::ShardSegmentIndex.magic() {
             return None;
         }
-        let entries: Vec<SegmentEntry> = bincode::deserialize_from(BufReader::new(file)).ok()?;
-        Some(entries.iter().map(|entry| entry.label()).collect())
+        bincode::deserialize_from(BufReader::new(file)).ok()
     }
 
     /// Writes an empty `segments.idx` for a shard that has neither an index nor segment
